@@ -30,6 +30,8 @@ from hpstatic.terms import (sym, intern, show, subterms, calls_in, NONE, num, kw
 from hpstatic.xrnorm import atom_rewrite
 from .c05 import subst
 
+MUTATION_TARGETS = {'holopy/scattering/theory/mielensfunctions.py': ['calculate_al_bl', 'riccati_psin', 'riccati_xin', 'calculate_pil_taul', '_eval', 'spherical_h2n'], 'holopy/scattering/theory/mie_f/miescatlib.py': ['scatcoeffs'], 'holopy/scattering/theory/mie_f/multilayer_sphere_lib.py': ['scatcoeffs_multi'], 'holopy/scattering/scatterer/sphere.py': ['r'], 'holopy/scattering/theory/mie.py': ['_scat_coeffs']}
+
 LEVEL = 'other'
 META = dict(
     claimed=True,
